@@ -411,6 +411,9 @@ func (t *TCP) serve(c net.Conn) {
 		if reply == NoReply {
 			continue
 		}
+		if reply == DropConn {
+			return
+		}
 		out.Reset()
 		EncodeReply(&out, reply)
 		if _, err := c.Write(out.Bytes()); err != nil {
